@@ -274,7 +274,15 @@ fn exec(sut: &mut Sut, s: &mut Sink, op: &Op) {
             match r {
                 Ok(()) => {
                     let st = sut.st().clone();
-                    let shards: Vec<String> = sut.keys.iter().map(|k| format!("{}:{}", hex(k), st.verif_clock_shard(k))).collect();
+                    // every key the workload uses *and* every key the new handle recovered (directed
+                    // cases use keys outside the workload's list)
+                    let mut all: Vec<Vec<u8>> = sut.keys.clone();
+                    for r in st.verif_snapshot() {
+                        if !all.contains(&r.key) {
+                            all.push(r.key);
+                        }
+                    }
+                    let shards: Vec<String> = all.iter().map(|k| format!("{}:{}", hex(k), st.verif_clock_shard(k))).collect();
                     let res = "ok".to_string() + &sut.tail();
                     s.emit("reopen", format!("reopen {} {} {}", sut.cfg.ttl as u8, now, if shards.is_empty() { "-".into() } else { shards.join(",") }), res);
                 }
